@@ -20,7 +20,25 @@ a real MetaData and
 3. ``sorted_tables`` lists the referenced table first for every dependency of a
    table that is not part of a cycle, and warns exactly when there is a cycle.
 
-Mutations caught: see the end of this docstring (filled in after the runs).
+Mutations caught: (each in a private copy of lib/, quick tier, each gave new VIOLATION signatures)
+  * sql/ddl.py sort_tables_and_constraints: dependency edge reversed ``(table, dependent_on)``
+    -> sorted_tables-order, create-rejected:referenced-table-missing, sqlite insert order;
+  * sort_tables_and_constraints: ``if dependent_on is not table`` dropped (self reference treated as a cycle)
+    -> sorted_tables-error / create-CircularDependencyError on one self-referential table;
+  * SchemaDropper.visit_metadata: ``reversed(...)`` removed (drop order not reversed)
+    -> drop-rejected:alter-table-missing / drop-referenced-table, sqlite IntegrityError;
+  * SchemaDropper filter_fn: ``constraint.name is None`` -> ``is not None``
+    -> drop-CircularDependencyError on an all-named cycle, drop-CompileError;
+  * SchemaDropper._can_drop_table: ``self._has_table`` -> ``not self._has_table`` (checkfirst inverted)
+    -> drop-incomplete, drop-rejected:drop-table-missing, sqlite-drop-incomplete;
+  * sort_tables: ``_warn_for_cycles=True`` -> False -> sorted_tables-warning;
+  * cycle resolution: ``remaining_fkcs.update(can_remove[1:])`` (one constraint of the cycle stays inline)
+    -> create-rejected:referenced-table-missing;
+  * final list: ``table.foreign_key_constraints`` without ``.difference(remaining_fkcs)`` (inline *and* ALTER)
+    -> create-rejected:referenced-table-missing;
+  * the (None, constraints) entry emitted before the last table -> create-rejected:alter-table-missing.
+  Not caught, by design: compiler.create_table_constraints ignoring use_alter - create_all never relies on it
+  (it passes include_foreign_key_constraints), only Table.create() does, which is outside this property.
 """
 import functools
 import itertools
@@ -45,13 +63,32 @@ LEVEL = "exploration"
 META = dict(
     engine="I",
     technique="exhaustive small-scope enumeration of foreign-key multigraphs; real create_all/drop_all replayed on a strict "
-    "catalog model (postgresql dialect) and executed on SQLite with foreign keys enforced",
+    "catalog model (postgresql dialect, checkfirst answered by the model) and executed on SQLite with foreign keys enforced",
     design_ref="DESIGN.md §5 C14",
-    level_text="placeholder",
-    level_note="placeholder",
-    rule="placeholder",
-    assumptions=[],
-    bounds=dict(quick="placeholder", thorough="placeholder"),
+    level_text="Every FK multigraph on 1-3 tables (quick) / 4 tables up to isomorphism (thorough): each ordered pair of "
+    "tables (self pairs included) carries no FK, one FK (named / unnamed / named+use_alter / unnamed+use_alter; one- or "
+    "two-column by a fixed rule) or two parallel FKs. For each MetaData: sorted_tables is checked against the graph; "
+    "create_all then drop_all run on the strict catalog model with checkfirst off, and with checkfirst on from every "
+    "FK-closed set of pre-existing tables (pre-state built by create_all(tables=...)); every statement must be accepted and "
+    "the catalog must end full / empty, or the call must raise exactly the documented error; the same MetaData is executed "
+    "on SQLite (PRAGMA foreign_keys=ON) with rows inserted in sorted_tables order when the graph is acyclic. The catalog "
+    "reads the facts from the text compiled for the dialect and cross-checks the DDL construct's element.",
+    level_note="PostgreSQL enforcement is modelled (40 rules-lines in vf/models/catalog.py), not executed; the model's "
+    "parser is validated on every case because the SQLite route compares sqlite_master / PRAGMA foreign_key_list with the "
+    "same expectation. quick: 3 tables: all 512 edge sets x all-named base with <= 2 edges turned unnamed/use_alter, <= 1 "
+    "unnamed use_alter, one parallel pair with <= 2 other edges; 1-2 tables: the full product. checkfirst pre-states only "
+    "for cases with few deviations (see LAYERS).",
+    rule="case = (number of tables, list of FK constraints (src, dst, columns, named, use_alter)); evaluated on up to 4 "
+    "routes (sorted_tables, catalog model, catalog model with checkfirst from every closed pre-state, SQLite); "
+    "non-trivial = at least one FK between two different tables (an ordering constraint exists)",
+    assumptions=[
+        "FK targets are the primary key or a UNIQUE pair of the referred table",
+        "the pre-existing part of a database is FK-closed (was itself created by create_all)",
+    ],
+    bounds=dict(
+        quick="<=3 tables: all edge sets x <=2 attribute deviations (+ parallel pairs, + unnamed use_alter); 1-2 tables full product",
+        thorough="3 tables: full product over {none, named, unnamed, use_alter} per pair (4^9) + parallel pairs with <=3 other edges + second column rule; 4 tables: all 3044 isomorphism classes x (<=1 edge unnamed/use_alter, or exactly 2 edges unnamed)",
+    ),
 )
 
 # ------------------------------------------------------------------ world
@@ -553,12 +590,13 @@ LAYERS = {
     "n3full": (3, "spkq", lambda p, q: layer_full(3, "NUA", p, q), 2, 9),
     "n3par3": (3, "spk", lambda p, q: layer_parallel(3, P2, "NU", 3, p, q), 2, 0),
     "n3rule1": (3, "spq", lambda p, q: layer_dev(3, "UA", 2, None, p, q), 0, 9),
-    "n4iso": (4, "spkq", lambda p, q: layer_dev(4, "UA", 2, iso_classes(4), p, q), 1, 1),
+    "n4iso": (4, "spkq", lambda p, q: layer_dev(4, "UA", 1, iso_classes(4), p, q), 1, 1),
+    "n4isoU2": (4, "sp", lambda p, q: (st for st in layer_dev(4, "U", 2, iso_classes(4), p, q) if st.count("U") == 2), 0, 0),
 }
 RULE = {"n3rule1": 1}
 TIER_LAYERS = dict(
     quick=[("n1", 1), ("n2", 8), ("n3dev2", 48), ("n3x", 4), ("n3par2", 24)],
-    thorough=[("n1", 1), ("n2full", 32), ("n3full", 256), ("n3x", 4), ("n3par3", 48), ("n3rule1", 32), ("n4iso", 256)],
+    thorough=[("n1", 1), ("n2full", 32), ("n3full", 256), ("n3x", 4), ("n3par3", 48), ("n3rule1", 32), ("n4iso", 64), ("n4isoU2", 128)],
 )
 
 
@@ -583,7 +621,13 @@ def routes_for(routes, fks, kmax, qmax=9):
 # ------------------------------------------------------------ minimisation
 
 
+_BUDGET = [0]
+
+
 def _kinds(n, fks, routes):
+    _BUDGET[0] -= 1
+    if _BUDGET[0] < 0:
+        return set()  # minimisation budget of this shard used up: candidates are simply not accepted any more
     return {k for k, _ in check_case(n, fks, routes, fresh=True)[0]}
 
 
@@ -670,6 +714,7 @@ def run_shard(shard, tier, rec):
     n, routes0, gen, kmax, qmax = LAYERS[name]
     rule = RULE.get(name, 0)
     reported = {}
+    _BUDGET[0] = 4000  # executions this shard may spend on minimising counterexamples
     for idx, states in enumerate(gen(p, parts)):
         fks = fks_of(n, states, rule)
         routes = routes_for(routes0, fks, kmax, qmax)
@@ -685,7 +730,7 @@ def run_shard(shard, tier, rec):
             rec.sample(dict(n=n, fks=fmt_fks(fks), sorted_tables=stats.get("sorted"), drop=stats.get("drop", [None])[0]))
         for kind, detail in res:
             # the first few failing cases of each kind are minimised (different root causes can share a kind)
-            if reported.get(kind, 0) >= 3:
+            if reported.get(kind, 0) >= 3 or len(rec.violations) >= 8:
                 rec.count("violating_cases")
                 continue
             reported[kind] = reported.get(kind, 0) + 1
